@@ -129,14 +129,31 @@ def aes_cbc_decrypt_raw(key, iv, ct):
     return d.update(ct) + d.finalize()
 
 
-def make_policy(case, iv):
+def col_desc(case, i):
+    """(keyspace, table, name) of column i: its own, as every bind marker / result column carries it"""
+    c = case['cols'][i]
+    return (c.get('ks', 'ks'), c.get('tb', 'tb'), c.get('name', 'c%d' % i))
+
+
+def make_policy(case, iv, skip=()):
     from cassandra.policies import ColDesc
     from cassandra.column_encryption.policies import AES256ColumnEncryptionPolicy
     pol = AES256ColumnEncryptionPolicy(iv=iv)
     for i, c in enumerate(case['cols']):
-        if c['key'] is not None:
-            pol.add_column(ColDesc('ks', 'tb', 'c%d' % i), bytes.fromhex(c['key']), c['type'])
+        if c['key'] is not None and i not in skip:
+            pol.add_column(ColDesc(*col_desc(case, i)), bytes.fromhex(c['key']), c['type'])
     return pol
+
+
+def result_class(handler):
+    """the RESULT message class of the protocol handler under test: 'pure' | 'cython' | 'cython-lazy'"""
+    import cassandra.protocol as P
+    if handler == 'pure':
+        return P._ProtocolHandler.message_types_by_opcode[P.ResultMessage.opcode]
+    h = P.ProtocolHandler if handler == 'cython' else P.LazyProtocolHandler
+    if not P.HAVE_CYTHON or h is None or h is P._ProtocolHandler:
+        raise RuntimeError('compiled protocol handler not available')
+    return h.message_types_by_opcode[P.ResultMessage.opcode]
 
 
 def _string(x):
@@ -163,19 +180,38 @@ def _type(t):
     raise ValueError(t)
 
 
-def run_impl(case):
-    """case: {'pv', 'iv': hex, 'iv2': hex, 'cols': [{'type', 'key': hex|None}], 'rows': [{'vals': [...], 'foreign': bool}]}
+def run_impl(case, handler='pure'):
+    """case: {'pv', 'iv': hex, 'iv2': hex, 'cols': [{'type', 'key': hex|None, ['ks','tb','name']}], 'rows': [{'vals': [...], 'foreign': bool}],
+              ['changed': ...], ['late': [column indexes registered with the policy only AFTER a first result was decoded]]}
     -> dict with per-row wire cells, the decode outcome, and everything the oracle needs."""
-    from cassandra.protocol import ColumnMetadata, ResultMessage
+    from cassandra.protocol import ColumnMetadata
+    from cassandra.policies import ColDesc
     from cassandra.query import PreparedStatement
     from cassandra import cqltypes as T
+    RM = result_class(handler)
     pv = case['pv']
     iv, iv2 = bytes.fromhex(case['iv']), bytes.fromhex(case['iv2'])
-    pol, pol2 = make_policy(case, iv), make_policy(case, iv2)
+    late = list(case.get('late') or [])
+    pol, pol2 = make_policy(case, iv, late), make_policy(case, iv2, late)
     types = [cqltype(c['type']) for c in case['cols']]
-    # on the server an encrypted column is a blob
-    meta = [ColumnMetadata('ks', 'tb', 'c%d' % i, T.BytesType if c['key'] is not None else types[i]) for i, c in enumerate(case['cols'])]
-    res = {'wire': [], 'bind_err': None, 'ser': []}
+    # on the server an encrypted column is a blob; every column carries its OWN keyspace / table (prepared BATCH, no global table spec)
+    meta = [ColumnMetadata(*(col_desc(case, i) + (T.BytesType if c['key'] is not None else types[i],))) for i, c in enumerate(case['cols'])]
+    res = {'wire': [], 'bind_err': None, 'ser': [], 'pre': None}
+    if late:
+        # a result for these columns is decoded BEFORE they are put under encryption (start-up SELECT), then add_column
+        cells = [(b'\x01raw' if i in late else None) for i in range(len(meta))]
+        body = struct.pack('>iii', 2, 0x0004, len(meta)) + struct.pack('>i', 1)
+        for c in cells:
+            body += struct.pack('>i', -1) if c is None else struct.pack('>i', len(c)) + c
+        try:
+            for p_ in (pol, pol2):
+                rows = list(RM.recv_body(io.BytesIO(body), pv, {}, meta, p_).parsed_rows)
+            res['pre'] = [[None if x is None else list(bytes(x)) for x in r] for r in rows]
+        except Exception as e:
+            res['pre'] = 'error %s: %s' % (type(e).__name__, str(e)[:200])
+        for i in late:
+            for p_ in (pol, pol2):
+                p_.add_column(ColDesc(*col_desc(case, i)), bytes.fromhex(case['cols'][i]['key']), case['cols'][i]['type'])
     for row in case['rows']:
         ps = PreparedStatement(meta, b'qid', None, 'q', 'ks', pv, meta, None, pol2 if row.get('foreign') else pol)
         vals = [pyval(v) for v in row['vals']]
@@ -192,15 +228,16 @@ def run_impl(case):
         # v5 Metadata_changed: after ALTER TABLE ADD the EXECUTE response carries the NEW column list (one plain column more,
         # inserted at ch['pos']) while the prepared statement still caches the OLD result metadata
         nt = cqltype(ch['col']['type'])
-        frame_meta = meta[:ch['pos']] + [ColumnMetadata('ks', 'tb', 'added', nt)] + meta[ch['pos']:]
+        near = col_desc(case, min(ch['pos'], len(meta) - 1))
+        frame_meta = meta[:ch['pos']] + [ColumnMetadata(near[0], near[1], 'added', nt)] + meta[ch['pos']:]
         types = types[:ch['pos']] + [nt] + types[ch['pos']:]
         for r, v in enumerate(ch['vals']):
             cell = None if v is None else bytes(nt.serialize(pyval(v), pv))
             res['wire'][r] = res['wire'][r][:ch['pos']] + [cell] + res['wire'][r][ch['pos']:]
             res['ser'][r] = res['ser'][r][:ch['pos']] + [cell] + res['ser'][r][ch['pos']:]
-        body = struct.pack('>iii', 2, 0x0001 | 0x0008, len(frame_meta)) + _short_bytes(b'new-metadata-id') + _string('ks') + _string('tb')
+        body = struct.pack('>iii', 2, 0x0008, len(frame_meta)) + _short_bytes(b'new-metadata-id')
         for m in frame_meta:
-            body += _string(m.name) + _type(m.type)
+            body += _string(m.keyspace_name) + _string(m.table_name) + _string(m.name) + _type(m.type)
         body += struct.pack('>i', len(res['wire']))
     else:
         # the server echoes: a ROWS result with NO_METADATA (metadata comes from the prepared statement, as on v4+)
@@ -209,8 +246,8 @@ def run_impl(case):
         for c in w:
             body += struct.pack('>i', -1) if c is None else struct.pack('>i', len(c)) + c
     try:
-        msg = ResultMessage.recv_body(io.BytesIO(body), pv, {}, meta, pol)
-        rows = msg.parsed_rows
+        msg = RM.recv_body(io.BytesIO(body), pv, {}, meta, pol)
+        rows = [tuple(r) for r in msg.parsed_rows]
         res['decoded'] = [[canon(x) for x in r] for r in rows]
         res['decode_err'] = None
         try:
